@@ -205,12 +205,12 @@ func corpus(c *corr.Ctx) {
 		inst := &cu.Instance{DInitExtra: []string{"64", "0", "0"}, NewDec: func() cu.Decoder { return d }}
 		pl := []byte{0, 64, 0xff, 0xff, 0xff, 0xff, 0xff, 0xff, 0xff, 0xff, 1, 2, 3}
 		pk := &rtp.Packet{Header: rtp.Header{Version: 2, Marker: true}, Payload: pl}
-		cu.HostileStream(c, s, inst, []*rtp.Packet{pk, pk.Clone()}, true, "mpeg4audio-corpus-sizelength64", "fixed 0ff2240: declared AU size 2^64-1")
+		cu.HostileStream(c, s, inst, []*rtp.Packet{pk, pk.Clone()}, true, "mpeg4audio-corpus-sizelength64", "fixed cbafb20: declared AU size 2^64-1")
 		// an 8000-byte AU in one packet (13/3/3): above MaxAccessUnitSize, now rejected
 		d2 := m4DecWith(13, 3, 3)
 		inst2 := &cu.Instance{DInitExtra: []string{"13", "3", "3"}, NewDec: func() cu.Decoder { return d2 }}
 		big := m4Packet(13, 3, 3, []int{8000}, make([]byte, 8000), -1)
-		cu.HostileStream(c, s, inst2, []*rtp.Packet{{Header: rtp.Header{Version: 2, Marker: true}, Payload: big}}, true, "mpeg4audio-corpus-bigau", "fixed 0ff2240: AU above MaxAccessUnitSize in one packet")
+		cu.HostileStream(c, s, inst2, []*rtp.Packet{{Header: rtp.Header{Version: 2, Marker: true}, Payload: big}}, true, "mpeg4audio-corpus-bigau", "fixed cbafb20: AU above MaxAccessUnitSize in one packet")
 	}()
 	// boundary groups at the default limit
 	p := cu.EncParams{PT: 96, SSRC: 8, Seq0: 65534, Max: 1450} // SSRC 8 → 13/3/3
